@@ -556,7 +556,9 @@ class HistorySpec(BfsSpec):
         round_trips(st, S, snap)
 
     def canon(self, st):
-        return snapshot(st.track)
+        # the entire instance state of the real track (every attribute of every bar, container and
+        # note, floats bit-exact): hidden state added by a changed library still separates states
+        return engine.deep_key(st.track)
 
 
 def run_history(case):
